@@ -96,9 +96,12 @@ def run_check(pid, tier, seed, replay=None):
         ans = run_harness(exe, ["%s %s %s" % (c.cid, c.elt, c.line) for c in cs], pid, prefix=prefix)
         impl.update(ans)
     # a case that hit the executor's watchdog is run once more, alone and with a six-fold limit, before it counts as a call
-    # that does not return (a loaded machine must not produce the verdict)
+    # that does not return (a loaded or stalled machine must not produce the verdict).  Every timed-out case is re-run; once
+    # five re-runs have confirmed a genuine hang the remaining ones are taken as timed out (the tree does hang).
     slow = [c for c in cases if impl.get(c.cid) is not None and any(t == "Ptimeout" for t in impl[c.cid])]
-    for c in slow[:8]:
+    confirmed = 0
+    for c in slow:
+        if confirmed >= 5: break
         env = c.meta.get("_env") or {}
         prefix = ("taskset -c %s " % env["taskset"]) if "taskset" in env else ""
         lim = str(6 * int(os.environ.get("VERIF_CASE_TIMEOUT", "10")))
@@ -106,6 +109,7 @@ def run_check(pid, tier, seed, replay=None):
             impl.update(run_harness(exe, ["%s %s %s" % (c.cid, c.elt, c.line)], pid + "retry", env={"VERIF_CASE_TIMEOUT": lim}, prefix=prefix))
         except Exception:
             pass
+        if any(t == "Ptimeout" for t in impl.get(c.cid, [])): confirmed += 1
     discarded = 0
     live = []
     for c in cases:
